@@ -4,8 +4,6 @@ From CAres.Gen Require Import Consts.
 Local Open Scope Z_scope.
 Notation filter_map := Legacy_spec.filter_map.
 
-Lemma in_firstn {A} (x : A) n : forall l, In x (firstn n l) -> In x l.
-Proof. induction n as [|n IH]; intros [|y l] H; cbn in H; try contradiction. destruct H as [->|H]; [left; reflexivity | right; apply IH; exact H]. Qed.
 Lemma in_skipn {A} (x : A) n : forall l, In x (skipn n l) -> In x l.
 Proof. induction n as [|n IH]; intros l H; [exact H|]. destruct l as [|y l]; [contradiction|]. right. apply IH. exact H. Qed.
 
@@ -303,8 +301,9 @@ Theorem getaddrinfo_exact hf lookups name family port flags p4 p6 rounds ai :
   Forall (round_wf family) rounds ->
   getaddrinfo hf lookups name family (Some port) flags p4 p6 ARES_SUCCESS rounds = Ok (ARES_SUCCESS, Some ai) ->
   match fake_addrinfo name family port flags p4 p6 with
-  | Some lit => ai = lit
-  | None => ai_nodes ai = spec_lookup_nodes hf name family port lookups rounds /\ ai_nodes ai <> []
+  | FAddr lit => ai = lit
+  | FFail _ => False
+  | FNone => ai_nodes ai = spec_lookup_nodes hf name family port lookups rounds /\ ai_nodes ai <> []
   end.
 Proof.
   intros Hwf. unfold getaddrinfo.
@@ -312,7 +311,7 @@ Proof.
   assert (Hf : family_ok family).
   { unfold family_ok. apply negb_false_iff in Ev. apply orb_prop in Ev. destruct Ev as [Ev|Ev];
       [apply orb_prop in Ev; destruct Ev as [Ev|Ev]|]; apply Z.eqb_eq in Ev; auto. }
-  destruct (fake_addrinfo name family port flags p4 p6) as [lit|]; [intros [= <-]; reflexivity|].
+  destruct (fake_addrinfo name family port flags p4 p6) as [|lit|fst]; [|intros [= <-]; reflexivity|discriminate].
   change (negb (ARES_SUCCESS =? ARES_SUCCESS)) with false. cbv iota.
   destruct (next_lookup hf name family port flags lookups rounds ai_empty 0 ARES_ECONNREFUSED) as [[st ai1]| |] eqn:En;
     cbn [bind]; try discriminate.
@@ -329,16 +328,17 @@ Proof.
   unfold getaddrinfo.
   destruct (negb _); [intros [= <- <-]; reflexivity|].
   destruct port as [port|]; [|intros [= <- <-]; reflexivity].
-  destruct (fake_addrinfo name family port flags p4 p6); [intros [= <- <-]; congruence|].
+  destruct (fake_addrinfo name family port flags p4 p6); [|intros [= <- <-]; congruence|intros [= <- <-]; reflexivity].
   destruct (negb (ns =? ARES_SUCCESS)); [intros [= <- <-]; reflexivity|].
   destruct (next_lookup _ _ _ _ _ _ _ _ _ _) as [[st1 ai1]| |]; cbn [bind]; try discriminate.
   destruct (Z.eqb_spec st1 ARES_SUCCESS); intros [= <- <-]; [congruence | reflexivity].
 Qed.
 
-(* a literal: exactly the address it denotes, with the caller's port and TTL 0 ... *)
+(* a literal: exactly the address it denotes, of a family that was asked for, with the
+   caller's port and TTL 0 *)
 Theorem literal_node name family port flags p4 p6 ai :
-  fake_addrinfo name family port flags p4 p6 = Some ai ->
-  exists a, (ai_nodes ai = [mkNode LEG_AF_INET a port 0] /\ p4 = Some a) \/
+  fake_addrinfo name family port flags p4 p6 = FAddr ai ->
+  exists a, (ai_nodes ai = [mkNode LEG_AF_INET a port 0] /\ p4 = Some a /\ family <> LEG_AF_INET6) \/
             (ai_nodes ai = [mkNode LEG_AF_INET6 a port 0] /\ p6 = Some a /\ family <> LEG_AF_INET).
 Proof.
   unfold fake_addrinfo.
@@ -347,17 +347,18 @@ Proof.
   { unfold r4. intros a. destruct ((family =? LEG_AF_INET) || _ || _); [|discriminate].
     destruct (forallb is_digit_dot name && _); [auto | discriminate]. }
   destruct r4 as [a|].
-  - intros [= <-]. exists a. left. split; [reflexivity | apply H4; reflexivity].
+  - destruct (Z.eqb_spec family LEG_AF_INET6) as [|Hne]; [discriminate|].
+    intros [= <-]. exists a. left. split; [reflexivity|]. split; [apply H4; reflexivity | exact Hne].
   - destruct ((family =? LEG_AF_INET6) || (family =? LEG_AF_UNSPEC)) eqn:E6; [|discriminate].
     destruct p6 as [a|]; [|discriminate]. intros [= <-]. exists a. right. split; [reflexivity|]. split; [reflexivity|].
     intros ->. discriminate E6.
 Qed.
 
-(* ... but a dotted-quad literal is accepted for AF_INET6 too (finding wrong-family-literal) *)
-Theorem literal_family_refuted :
-  exists name p4 ai, fake_addrinfo name LEG_AF_INET6 0 0 (Some p4) None = Some ai /\
-                     ai_nodes ai = [mkNode LEG_AF_INET p4 0 0].
-Proof. exists [49; 46; 50; 46; 51; 46; 52], [1; 2; 3; 4]. eexists. split; reflexivity. Qed.
+(* a dotted-quad literal never satisfies an AF_INET6 request *)
+Theorem literal_other_family name port flags p4 p6 a :
+  forallb is_digit_dot name && Nat.eqb (count_dots name) 3 = true -> p4 = Some a ->
+  fake_addrinfo name LEG_AF_INET6 port flags p4 p6 = FFail ARES_ENOTFOUND.
+Proof. intros Hd ->. unfold fake_addrinfo. cbn. rewrite Hd. reflexivity. Qed.
 
 (* no address is invented: every node of a successful DNS round is an address record of one
    of the accepted answers of that round (content in C13_nodes_are_the_records) *)
